@@ -736,3 +736,35 @@ Proof.
   - inversion H; subst. split; [reflexivity|]. split; [apply reaches_here|].
     exists i. split; assumption.
 Qed.
+
+(* ------------------------------------------------------------------ deciding the domain for terminating runs *)
+Definition settled (o : outcome) : bool :=
+  match o with OutOfFuel | Unspec _ => false | _ => true end.
+
+Lemma sem_fuel_stable : forall f prog st pc f',
+  snd (Sem.run_from prog st pc f) <> OutOfFuel ->
+  snd (Sem.run_from prog st pc f') = OutOfFuel \/
+  Sem.run_from prog st pc f' = Sem.run_from prog st pc f.
+Proof.
+  induction f as [|f IH]; intros prog st pc f' H;
+    rewrite (sem_run_eq prog st pc f'); rewrite sem_run_eq in H; rewrite sem_run_eq;
+    destruct (pc <? 0); try (right; reflexivity);
+    destruct (Zlen prog <=? pc); try (right; reflexivity);
+    destruct (nth_error prog (Z.to_nat pc)) as [i|]; try (right; reflexivity).
+  - cbn in H. congruence.
+  - destruct f' as [|f']; [left; reflexivity|].
+    destruct (step i st pc) as [st1 pc1|o]; [|right; reflexivity].
+    apply IH. exact H.
+Qed.
+
+(* a run that ends (halt, fault or blocked) within some step bound without
+   meeting open behaviour is in the defined domain *)
+Theorem defined_from_by_run : forall prog st pc N,
+  settled (snd (Sem.run_from prog st pc N)) = true -> defined_from prog st pc.
+Proof.
+  intros prog st pc N H f.
+  destruct (sem_fuel_stable N prog st pc f) as [E|E].
+  - intro Hc. rewrite Hc in H. discriminate.
+  - rewrite E. reflexivity.
+  - rewrite E. destruct (snd (Sem.run_from prog st pc N)); try reflexivity; discriminate.
+Qed.
